@@ -4,6 +4,7 @@ import (
 	"go/ast"
 	"go/token"
 	"go/types"
+	"strconv"
 
 	"golang.org/x/tools/go/ssa"
 
@@ -125,8 +126,8 @@ func shiftGuardRule(r *core.Run, rule string, pick func(key string) bool) {
 func c14(r *core.Run) {
 	r.Explanation = "Decided clauses: (R1) shift methods of signed types raise exactly {NegativeShift}, of unsigned and Word types nothing; every native shift with a signed count and every big.Int Lsh/Rsh of a signed type " +
 		"is dominated by the negative-count test raising NegativeShiftError; (R2) BitwiseOr/Xor/And/LeftShift/RightShift of sibling widths agree modulo the family parameters — " +
-		"(R3) the two's-complement sign is extracted from a byte string of the type's full width; in particular the `>= W` shift-amount test, toTwosComplement(…, W) and truncate(…, W/wordsize) use the type's own width (a literal that is the width of one sibling but not of the other is reported)."
-	r.NotDecided = "the two's-complement result values (e.g. arithmetic right shift of negative big values by huge counts)."
+		"(R3) the two's-complement sign is extracted from a byte string of the type's full width; in particular the `>= W` shift-amount test, toTwosComplement(…, W) and truncate(…, W/wordsize) use the type's own width (a literal that is the width of one sibling but not of the other is reported); (R4) a right shift of a signed type returns a constant only under a test of the receiver's sign."
+	r.NotDecided = "the two's-complement result values beyond the structural clauses R1–R4."
 	signed := append(append([]string{}, signedNative...), signedBig...)
 	unsigned := append(append(append(append([]string{}, unsignedNative...), unsignedBig...), wordNative...), wordBig...)
 	for _, t := range signed {
@@ -181,4 +182,104 @@ func c14(r *core.Run) {
 		}
 	}
 	r.Floor("R3.signwidth", 2)
+
+	// R4 arithmetic right shift: floor(x / 2^n) of a negative x is never a constant — a return of a constant value from the
+	// right shift of a signed type (the "count too large" shortcut) must be decided by a test of the receiver's sign
+	for _, t := range signed {
+		fn := mustFn(r, "R4.shiftsign", "interpreter", t+"Value", "BitwiseRightShift")
+		if fn == nil {
+			continue
+		}
+		if len(fn.Params) == 0 {
+			r.Undecided("R4.shiftsign", core.SSAKey(fn), "no receiver parameter")
+			continue
+		}
+		recv := fn.Params[0]
+		dependsOnRecv := func(v ssa.Value) bool {
+			seen := map[ssa.Value]bool{}
+			var walk func(x ssa.Value, d int) bool
+			walk = func(x ssa.Value, d int) bool {
+				if x == nil || seen[x] || d > 8 {
+					return false
+				}
+				seen[x] = true
+				if core.IsParamValue(x, recv) {
+					return true
+				}
+				if al, ok := x.(*ssa.Alloc); ok {
+					// the spilled receiver cell
+					if refs := al.Referrers(); refs != nil {
+						for _, ref := range *refs {
+							if st, ok := ref.(*ssa.Store); ok && st.Addr == al && st.Val == recv {
+								return true
+							}
+						}
+					}
+				}
+				in, ok := x.(ssa.Instruction)
+				if !ok {
+					return false
+				}
+				for _, op := range in.Operands(nil) {
+					if op != nil && *op != nil && walk(*op, d+1) {
+						return true
+					}
+				}
+				return false
+			}
+			return walk(v, 0)
+		}
+		var constResult func(v ssa.Value, d int) bool
+		constResult = func(v ssa.Value, d int) bool {
+			if d > 4 {
+				return false
+			}
+			switch x := v.(type) {
+			case *ssa.Const:
+				return true
+			case *ssa.MakeInterface:
+				return constResult(x.X, d+1)
+			case *ssa.ChangeType:
+				return constResult(x.X, d+1)
+			case *ssa.Convert:
+				return constResult(x.X, d+1)
+			case *ssa.Call:
+				// a constructor applied to constants only (context arguments aside)
+				nconst := 0
+				for _, a := range x.Call.Args {
+					if _, ok := a.(*ssa.Const); ok {
+						nconst++
+					} else if !types.IsInterface(a.Type()) {
+						return false
+					}
+				}
+				return nconst > 0
+			}
+			return false
+		}
+		nret := 0
+		for _, b := range fn.Blocks {
+			for _, in := range b.Instrs {
+				ret, ok := in.(*ssa.Return)
+				if !ok || len(ret.Results) != 1 {
+					continue
+				}
+				nret++
+				key := core.SSAKey(fn) + ": return #" + strconv.Itoa(nret)
+				if !constResult(ret.Results[0], 0) {
+					r.OK("R4.shiftsign", key, ret.Pos(), "result computed from the operands")
+					continue
+				}
+				decided := false
+				for _, a := range core.ControllingConds(ret) {
+					if a.Var.Call != nil && dependsOnRecv(a.Var.Call) {
+						decided = true
+					}
+				}
+				r.Check(decided, "R4.shiftsign", key, ret.Pos(), "constant result returned under a test of the receiver (its sign)",
+					"a constant is returned from the right shift of a signed value without consulting the receiver: floor(x / 2^n) is -1, not 0, for negative x and large n")
+			}
+		}
+	}
+	r.Floor("R4.shiftsign", len(signed))
 }
